@@ -305,6 +305,18 @@ done:
 			r.res.note("%s: SaveSnapshot: %v", b.ID, err)
 		} else {
 			r.checkMonotone(s2.ReplicationStatus(), "store a after SaveSnapshot")
+			// the store that saved the snapshot loads it itself (it holds every entry of it already): nothing moves
+			if err := s2.LoadFromSnapshot(ctx); err != nil {
+				r.res.note("%s: LoadFromSnapshot on the store that saved it: %v", b.ID, err)
+			} else if err := c.settle(); err == nil {
+				r.checkMonotone(s2.ReplicationStatus(), "store a loading its own snapshot")
+				n, gm, gp := s2.OpLog().Len(), s2.ReplicationStatus().GetMax(), s2.ReplicationStatus().GetProgress()
+				r.res.Comparisons++
+				r.res.Stats["own_snapshot_loads"]++
+				if gp != gm || gm > n {
+					r.violate("rest", fmt.Sprintf("after a store of %d entries loaded the snapshot it had just saved: progress %d, max %d", n, gp, gm), n, []int{gp, gm})
+				}
+			}
 			want := s2.OpLog().Len()
 			n := c.nodes["a"]
 			p := n.P
